@@ -80,10 +80,19 @@ func startWorker() *worker {
 	return &worker{cmd: cmd, in: in, out: bufio.NewReaderSize(out, 1<<16)}
 }
 
+// kill ends the worker: end of input lets a healthy worker return from main by itself (so that a coverage build
+// writes its counters); a worker that hangs is killed after a moment.
 func (w *worker) kill() {
 	w.in.Close()
+	done := make(chan struct{})
+	go func() { _ = w.cmd.Wait(); close(done) }()
+	select {
+	case <-done:
+		return
+	case <-time.After(300 * time.Millisecond):
+	}
 	_ = w.cmd.Process.Kill()
-	_ = w.cmd.Wait()
+	<-done
 }
 
 // scenarioTimeout is far above anything a scenario needs (callbacks sleep a few ms in total); it only
